@@ -18,32 +18,33 @@ namespace PydraModel.JobProto.CacheHist
     of every submission, same abstract cache and same execution counters afterwards.  Leftover incomplete
     directories are invisible. -/
 theorem C11_refines (W : World) (ops : List Op) (st : St) :
-    (trace W true st ops).1 = (specTrace W (abs st) ops).1
-    ∧ abs (trace W true st ops).2 = (specTrace W (abs st) ops).2 := refine_trace W ops st
+    (trace W true true st ops).1 = (specTrace W (abs st) ops).1
+    ∧ abs (trace W true true st ops).2 = (specTrace W (abs st) ops).2 := refine_trace W ops st
 
 /-- C11 (at most once, FULL): in any history from the empty caches, for every root `w` and identity `k`, the
     number of executions into `w` is at most 1 + (submissions into `w` with rerun) + (submissions into `w`
     whose cached-result test saw an errored result) + (runs of `k` in `w` that were killed). -/
-theorem C11_at_most_once (W : World) (ops : List Op) (w : Loc) (k : Key) :
-    let log := (run W true St.init ops).log
+theorem C11_at_most_once (W : World) (ops : List Op) (hac : ∀ op ∈ ops, op.Acyclic) (w : Loc) (k : Key) :
+    let log := (run W true true St.init ops).log
     execsAt log w k ≤ 1 + rerunsAt log w k + foundErrAt log w k + plantsAt ops w k := by
   have h0 : Inv w k St.init 0 := by
     simp [Inv, St.init, execsAt, rerunsAt, foundErrAt, Store.empty, Cell.isComplete]
-  have h := inv_run W true w k ops St.init 0 h0
+  have h := inv_run W true true w k ops hac St.init 0 h0
   unfold Inv at h
   simp only
   omega
 
 /-- the same from an arbitrary starting state (any directories already present) -/
-theorem C11_at_most_once_from (W : World) (ops : List Op) (st : St) (w : Loc) (k : Key) (hlog : st.log = []) :
-    let log := (run W true st ops).log
+theorem C11_at_most_once_from (W : World) (ops : List Op) (hac : ∀ op ∈ ops, op.Acyclic) (st : St) (w : Loc) (k : Key)
+    (hlog : st.log = []) :
+    let log := (run W true true st ops).log
     execsAt log w k ≤ 1 + rerunsAt log w k + foundErrAt log w k + plantsAt ops w k := by
   have h0 : Inv w k st 0 := by
     unfold Inv
     rw [hlog]
     simp only [execsAt, rerunsAt, foundErrAt, List.countP_nil]
     split <;> omega
-  have h := inv_run W true w k ops st 0 h0
+  have h := inv_run W true true w k ops hac st 0 h0
   unfold Inv at h
   simp only
   omega
@@ -52,14 +53,14 @@ theorem C11_at_most_once_from (W : World) (ops : List Op) (st : St) (w : Loc) (k
     `w` (with any read-only lists, interleaved with anything else) without rerun — neither directly nor
     through a rerun workflow that propagates — and with no killed run of it in `w`, executes at most once
     there. -/
-theorem C11_once (W : World) (ops : List Op) (w : Loc) (n v0 : Nat)
+theorem C11_once (W : World) (ops : List Op) (hac : ∀ op ∈ ops, op.Acyclic) (w : Loc) (n v0 : Nat)
     (hok : W.body n 0 = .ok v0) (hdet : ∀ i, W.body n i = W.body n 0)
-    (hnorerun : rerunsAt (run W true St.init ops).log w (.task n) = 0)
+    (hnorerun : rerunsAt (run W true true St.init ops).log w (.task n) = 0)
     (hnoplant : plantsAt ops w (.task n) = 0) :
-    execsAt (run W true St.init ops).log w (.task n) ≤ 1 := by
-  have h := C11_at_most_once W ops w (.task n)
+    execsAt (run W true true St.init ops).log w (.task n) ≤ 1 := by
+  have h := C11_at_most_once W ops hac w (.task n)
   have hg : Good W n St.init := by intro l r hc; simp [St.init, Store.empty] at hc
-  have hz := foundErrAt_zero n _ w (noerr_run W true n v0 hok hdet ops St.init hg (by intro e he; simp [St.init] at he))
+  have hz := foundErrAt_zero n _ w (noerr_run W true true n v0 hok hdet ops St.init hg (by intro e he; simp [St.init] at he))
   simp only at h
   omega
 
@@ -67,7 +68,7 @@ theorem C11_once (W : World) (ops : List Op) (w : Loc) (n v0 : Nat)
     submission of a deterministic task returns the value of a fresh execution. -/
 theorem C11_returns_fresh (W : World) (n : Nat) (hdet : ∀ i, W.body n i = W.body n 0) (ops : List Op) (st : St)
     (hg : Good W n st) :
-    ∀ sb out, (Op.submit n sb, out) ∈ (trace W true st ops).1 → out = some (W.body n 0) := by
+    ∀ sb out, (Op.submit n sb, out) ∈ (trace W true true st ops).1 → out = some (W.body n 0) := by
   induction ops generalizing st with
   | nil => intro sb out h; simp [trace] at h
   | cons op ops ih =>
@@ -79,7 +80,7 @@ theorem C11_returns_fresh (W : World) (n : Nat) (hdet : ∀ i, W.body n i = W.bo
       rw [h2]
       simp only [step, readBack_task]
       exact congrArg some (runTask_value W true n hdet st sb hg)
-    · exact ih _ (good_step W true n hdet st op hg) sb out h
+    · exact ih _ (good_step W true true n hdet st op hg) sb out h
 
 /-- C11 (rerun): a rerun submission always executes the body, and writes the new result under its root. -/
 theorem C11_rerun_executes (W : World) (st : St) (n : Nat) (sb : Sub) (h : sb.rerun = true) :
@@ -88,33 +89,40 @@ theorem C11_rerun_executes (W : World) (st : St) (n : Nat) (sb : Sub) (h : sb.re
   rw [runTask_rerun W true st n sb h]
   simp [execute]
 
-/-- C11 (propagation on): a rerun workflow whose nodes all succeed executes every node job once more
-    (`nodes.count m` times for a node listed several times). -/
-theorem C11_propagate_rerun (W : World) (st : St) (n : Nat) (nodes : List Nat) (sb : Sub) (h : sb.rerun = true)
-    (v : Nat) (hres : (runWf W true st n nodes sb true).2 = .ok v) (m : Nat) :
-    (runWf W true st n nodes sb true).1.execs (.task m) = st.execs (.task m) + nodes.count m := by
+/-- C11 (propagation on, ANY nesting depth): a rerun workflow whose jobs all succeed re-executes every task inside
+    it and every workflow nested in it, at every depth, once per occurrence (and itself). -/
+theorem C11_propagate_rerun (W : World) (st : St) (n : Nat) (nodes : Nodes) (sb : Sub) (h : sb.rerun = true)
+    (v : Nat) (hres : (runWf W true true st n nodes sb true).2 = .ok v) :
+    (∀ m, (runWf W true true st n nodes sb true).1.execs (.task m) = st.execs (.task m) + nodes.countTask m)
+    ∧ (∀ k, (runWf W true true st n nodes sb true).1.execs (.wf k)
+          = st.execs (.wf k) + nodes.countWf k + (if k = n then 1 else 0)) := by
   have hc : cachedTest true st (.wf n) sb = none := by simp [cachedTest, h]
+  have his : (innerSub true sb).rerun = true := by simp [innerSub, h]
   unfold runWf at hres ⊢
   rw [hc] at hres ⊢
-  simp only [h, Bool.and_true] at hres ⊢
-  cases hr : runNodes W true { root := sb.root, ro := sb.ro, rerun := true } st nodes with
+  simp only at hres ⊢
+  cases hr : runNodes W true true true (innerSub true sb) st nodes with
   | mk st' ok =>
     rw [hr] at hres
     cases ok with
-    | false => simp at hres
+    | false => simp [wfRes] at hres
     | true =>
-      simp only [execute]
-      have := runNodes_rerun_execs W true _ rfl nodes st st' hr m
-      simpa using this
+      obtain ⟨h1, h2⟩ := runNodes_rerun_execs W true nodes (innerSub true sb) st st' his hr
+      refine ⟨fun m => ?_, fun k => ?_⟩
+      · rw [execute_execs, h1 m]; simp
+      · rw [execute_execs, h2 k]
+        simp only [Key.wf.injEq]
 
-/-- C11 (propagation off): the workflow job itself re-executes, its node jobs are ordinary (non-rerun)
-    submissions into the same root with the same read-only list. -/
-theorem C11_no_propagate (W : World) (st : St) (n : Nat) (nodes : List Nat) (sb : Sub) (h : sb.rerun = true) :
-    runWf W true st n nodes sb false =
-      (let r := runNodes W true { sb with rerun := false } st nodes
-       let res := if r.2 then Res.ok (W.wval n) else Res.err
-       (execute r.1 (.wf n) sb none res, res)) := by
-  simp [runWf, cachedTest, h]
+/-- C11 (propagation off): the workflow job itself re-executes, its node jobs — at every depth — are ordinary
+    (non-rerun) submissions into the same root with the same read-only list. -/
+theorem C11_no_propagate (W : World) (st : St) (n : Nat) (nodes : Nodes) (sb : Sub) (h : sb.rerun = true) :
+    runWf W true true st n nodes sb false =
+      (let r := runNodes W true true false { sb with rerun := false } st nodes
+       (execute r.1 (.wf n) sb none (wfRes W n r.2), wfRes W n r.2))
+    ∧ (innerSub false { sb with rerun := false } : Sub) = { sb with rerun := false } := by
+  constructor
+  · simp [runWf, cachedTest, h, innerSub]
+  · simp [innerSub]
 
 /-- C11 (reuse): without rerun, a complete successful result in ANY listed location (root or read-only, in
     whatever position, behind whatever leftover directories) is returned without executing and without
@@ -133,19 +141,19 @@ theorem C11_reuse (W : World) (st : St) (n : Nat) (sb : Sub) (hr : sb.rerun = fa
     no cell of any location other than its own root (a `plant` — the environment — only its own cell). -/
 theorem C11_readonly_untouched (W : World) (st : St) (op : Op) (l : Loc)
     (hroot : op.root? ≠ some l) (hplant : ∀ k, op ≠ .plant l k) (k : Key) :
-    (step W true st op).1.store l k = st.store l k := step_frame W true st op l hroot hplant k
+    (step W true true st op).1.store l k = st.store l k := step_frame W true true st op l hroot hplant k
 
 theorem C11_readonly_untouched_history (W : World) (l : Loc) (ops : List Op) (st : St)
     (h : ∀ op ∈ ops, op.root? ≠ some l ∧ ∀ k, op ≠ .plant l k) (k : Key) :
-    (run W true st ops).store l k = st.store l k := by
+    (run W true true st ops).store l k = st.store l k := by
   induction ops generalizing st with
   | nil => rfl
   | cons op ops ih =>
     have h1 := (h op (by simp))
-    have := ih (step W true st op).1 (fun o ho => h o (by simp [ho]))
+    have := ih (step W true true st op).1 (fun o ho => h o (by simp [ho]))
     simp only [run, trace] at this ⊢
     rw [this]
-    exact step_frame W true st op l h1.1 h1.2 k
+    exact step_frame W true true st op l h1.1 h1.2 k
 
 /-! ### Regression witness for the repaired defect D8 -/
 
@@ -159,35 +167,60 @@ def shadowHistory : List Op :=
 /-- with the current `load_result` the history behaves as the abstract cache says: one execution, the second
     submission returns the cached value -/
 theorem C11_shadow_regression :
-    (run w7 true St.init shadowHistory).execs (.task 0) = 1
-    ∧ ((trace w7 true St.init shadowHistory).1.map (·.2)) = [some (.ok 7), none, some (.ok 7)] := by
+    (run w7 true true St.init shadowHistory).execs (.task 0) = 1
+    ∧ ((trace w7 true true St.init shadowHistory).1.map (·.2)) = [some (.ok 7), none, some (.ok 7)] := by
   decide
 
 /-- documentation of D8: with the `load_result` of the pinned commit (return `None` at the first existing
     directory) the same history executes the body twice where the abstract cache executes it once — the
     refinement theorem is false for that variant -/
 theorem C11_shadow_old_witness :
-    (run w7 false St.init shadowHistory).execs (.task 0) = 2
+    (run w7 false true St.init shadowHistory).execs (.task 0) = 2
     ∧ (specTrace w7 (abs St.init) shadowHistory).2.execs (.task 0) = 1
-    ∧ abs (run w7 false St.init shadowHistory) ≠ (specTrace w7 (abs St.init) shadowHistory).2 := by
+    ∧ abs (run w7 false true St.init shadowHistory) ≠ (specTrace w7 (abs St.init) shadowHistory).2 := by
   refine ⟨by decide, by decide, ?_⟩
   intro h
   have := congrArg (fun a => a.execs (.task 0)) h
   revert this
   decide
 
+/-! ### Nested workflows: the flag must reach workflow NODES too -/
+
+/-- workflow 1 = [ workflow 0 = [task 0, task 1], task 2 ]  (depth 2) -/
+def nested2 : Nodes := .wf 0 (.task 0 (.task 1 .nil)) (.task 2 .nil)
+
+/-- submit, then rerun in place with propagation on -/
+def nestedHistory : List Op :=
+  [.submitWf 1 nested2 ⟨0, [], false⟩ true, .submitWf 1 nested2 ⟨0, [], true⟩ true]
+
+/-- the code (`nest = true`): the rerun re-executes the nested workflow and the tasks inside it -/
+theorem C11_nested_rerun_regression :
+    (run w7 true true St.init nestedHistory).execs (.task 0) = 2
+    ∧ (run w7 true true St.init nestedHistory).execs (.wf 0) = 2
+    ∧ (run w7 true true St.init nestedHistory).execs (.task 2) = 2 := by decide
+
+/-- documentation: a variant in which a workflow NODE is submitted without the flag (`nest = false`, what
+    `await self.worker.submit(job)` without `rerun=` does in `expand_workflow_async`) serves the nested workflow
+    from the cache — the tasks inside it are not re-executed although rerun was requested with propagation, while
+    leaf nodes of the outer workflow still are; `C11_propagate_rerun` and `C11_refines` are false for it. -/
+theorem C11_witness_nested_flag :
+    (run w7 true false St.init nestedHistory).execs (.task 0) = 1
+    ∧ (run w7 true false St.init nestedHistory).execs (.wf 0) = 1
+    ∧ (run w7 true false St.init nestedHistory).execs (.task 2) = 2
+    ∧ (specTrace w7 (abs St.init) nestedHistory).2.execs (.task 0) = 2 := by decide
+
 /-! ### Non-vacuity -/
 
 /-- the hypotheses of `C11_once` hold for a concrete history with three submissions, two roots, a read-only
     list and a leftover directory -/
 example : w7.body 0 0 = .ok 7 ∧ (∀ i, w7.body 0 i = w7.body 0 0)
-    ∧ rerunsAt (run w7 true St.init shadowHistory).log 0 (.task 0) = 0
+    ∧ rerunsAt (run w7 true true St.init shadowHistory).log 0 (.task 0) = 0
     ∧ plantsAt [Op.submit 0 ⟨1, [], false⟩, .submit 0 ⟨0, [1], false⟩] 0 (.task 0) = 0 := by
   refine ⟨rfl, fun _ => rfl, by decide, by decide⟩
 
 /-- `C11_reuse`'s hypotheses: result in the read-only location 1, leftover directory in the root 0 -/
-example : (run w7 true St.init [.submit 0 ⟨1, [], false⟩, .plant 0 (.task 0)]).store 1 (.task 0) = .complete (.ok 7)
-    ∧ (run w7 true St.init [.submit 0 ⟨1, [], false⟩, .plant 0 (.task 0)]).store 0 (.task 0) = .incomplete := by
+example : (run w7 true true St.init [.submit 0 ⟨1, [], false⟩, .plant 0 (.task 0)]).store 1 (.task 0) = .complete (.ok 7)
+    ∧ (run w7 true true St.init [.submit 0 ⟨1, [], false⟩, .plant 0 (.task 0)]).store 0 (.task 0) = .incomplete := by
   decide
 
 /-- a flaky task (fails first, then succeeds): the second submission sees the errored result, executes again
@@ -195,12 +228,17 @@ example : (run w7 true St.init [.submit 0 ⟨1, [], false⟩, .plant 0 (.task 0)
 example :
     let W : World := ⟨fun _ i => if i = 0 then .err else .ok 1, fun _ => 0⟩
     let ops := [Op.submit 0 ⟨0, [], false⟩, .submit 0 ⟨0, [], false⟩, .submit 0 ⟨0, [], false⟩]
-    execsAt (run W true St.init ops).log 0 (.task 0) = 2
-    ∧ foundErrAt (run W true St.init ops).log 0 (.task 0) = 1 := by
+    execsAt (run W true true St.init ops).log 0 (.task 0) = 2
+    ∧ foundErrAt (run W true true St.init ops).log 0 (.task 0) = 1 := by
   decide
 
 /-- a rerun workflow with propagation re-executes both node jobs (hypotheses of `C11_propagate_rerun`) -/
-example : (runWf w7 true (run w7 true St.init [.submitWf 0 [0, 1] ⟨0, [], false⟩ true]) 0 [0, 1] ⟨0, [], true⟩ true).2
-    = .ok 0 := by decide
+example : (runWf w7 true true (run w7 true true St.init [.submitWf 1 nested2 ⟨0, [], false⟩ true]) 1 nested2
+    ⟨0, [], true⟩ true).2 = .ok 0 := by decide
+
+example : ∀ op ∈ nestedHistory, op.Acyclic := by
+  intro op h
+  simp only [nestedHistory, List.mem_cons, List.not_mem_nil, or_false] at h
+  rcases h with rfl | rfl <;> simp [Op.Acyclic, nested2, Nodes.wfKeys, Nodes.Acyclic]
 
 end PydraModel.JobProto.CacheHist
